@@ -176,6 +176,11 @@ func exploreDFS(sc *Scenario, bound, cap int, visit func(*rt.Controller)) {
 					if prevEnabled && ch.Tid != prev {
 						cost = 1
 					}
+					for _, pc := range en { // leaving a sleeping goroutine is free
+						if pc.Tid == prev && pc.Sleep {
+							cost = 0
+						}
+					}
 					if pre+cost > bound {
 						continue
 					}
